@@ -1,7 +1,7 @@
 (* C06 — send_keystream_aligned *)
 From Coq Require Import NArith List Bool Arith Lia.
 Import ListNotations.
-From LTV.C06 Require Import ParamsGen Model ModelSend.
+From LTV.C06 Require Import ParamsProbe Model ModelSend.
 
 Definition WInv (s : wst) : Prop :=
   exists P E Q, wq s = P ++ E ++ Q /\ all_clear P = true /\ encs_ok 0 E = true /\ length E = eidx s /\
